@@ -4,3 +4,7 @@ import AxVerif.Model.Wire
 import AxVerif.Generated.Wire
 import AxVerif.Driver.Wire
 import AxVerif.Thm.C20
+import AxVerif.Model.Db
+import AxVerif.Driver.Hist
+import AxVerif.Thm.C04
+import AxVerif.Thm.C03
